@@ -26,10 +26,15 @@ import (
 	"verif/symgo/interp"
 )
 
-const (
-	repoDir  = "/repo"
-	verifDir = "/verif"
-)
+const repoDir = "/repo"
+
+// verifDir is /verif unless $VERIF_DIR points elsewhere (background runs from a snapshot).
+var verifDir = func() string {
+	if d := os.Getenv("VERIF_DIR"); d != "" {
+		return d
+	}
+	return "/verif"
+}()
 
 // Run is one exploration of one harness function.
 type Run struct {
